@@ -10,6 +10,7 @@ structure Flags where
   keepGoing : Nat := 1            -- clap default "1"
   jobs : Option Nat := none
   verbose : Nat := 0
+  compileCommands : Bool := false  -- `-c` / `--compile-commands`
   deriving Repr
 
 inductive Spawn where
@@ -104,6 +105,18 @@ def runBuild (st : Settings) (a : Args) (fl : Flags) (builds : List BuildInfo) (
       else
         let (sp, errors) := runTasks st.projectRoot targs cmdFails fl.keepGoing (runnable.map (·.2)) 0
         (pre ++ sp, if errors > 0 then 1 else 0)
+
+/-- `--compile-commands`: right after generation (before the `-G` exit, before any task or build) laze runs ninja's `compdb` tool on
+    the file it generated, with stdout redirected to `<project root>/compile_commands.json` (`generate_compile_commands`,
+    `NinjaToolBase::get_command`: `-f <file>` then the tool arguments). Only a failure to START ninja is an error; the tool's exit
+    status is not looked at. -/
+def compdbSpawns (st : Settings) (a : Args) (fl : Flags) : List Spawn :=
+  if fl.compileCommands then [.ninja ["-f", ninjaFile st a.mode, "-t", "compdb"]] else []
+
+/-- `laze build [-c] [task]` after the build files exist: the compdb call, then everything `runBuild` does -/
+def runBuildCC (st : Settings) (a : Args) (fl : Flags) (builds : List BuildInfo) (task : Option (String × List String))
+    (ninjaRc : Nat) (cmdFails : String → Bool) : List Spawn × Nat :=
+  (compdbSpawns st a fl ++ (runBuild st a fl builds task ninjaRc cmdFails).1, (runBuild st a fl builds task ninjaRc cmdFails).2)
 
 /-- `laze clean [--unused]` -/
 def runClean (st : Settings) (mode : Mode) (unused : Bool) (verbose : Nat) (ninjaRc : Nat) : List Spawn × Nat :=
